@@ -147,6 +147,7 @@ int main(void)
 		if (n == 1 && !strcmp(w[0], "#case")) {
 			reset_all();
 			puts("#case");
+			fflush(stdout);	/* a crash later must not swallow earlier cases' output */
 		/* ------------------------------------------------------ cbtree */
 		} else if (n == 2 && !strcmp(w[0], "ins") && (kl = hc_unhex(w[1], &k)) >= 0) {
 			struct Obj *o = malloc(sizeof(*o) + kl);
